@@ -179,6 +179,10 @@ def tasks(tier, seed):
             for w, canon in fixed_phrases(lang):
                 if any(not (ch.isalnum() or ch.isspace() or unicodedata.category(ch).startswith("M")) for ch in w):
                     add_fixed(lang, None, w, canon)
+            # counted patterns spelled with a format character (ZWNJ/ZWJ, ...)
+            for pre, suf, canon in counted_patterns(lang)[0]:
+                if any(unicodedata.category(ch) == "Cf" for ch in pre + suf):
+                    add_counted(lang, None, pre, suf, canon, 2)
     for e in _known_entries():
         code = e["locale"]
         lang = code if code in order else code.rsplit("-", 1)[0]
